@@ -56,6 +56,7 @@ structure Inv2 (c : Cfg) (s : State) : Prop where
     j < s.popped ∨ ∃ g, g < c.n ∧ ((s.forks g).pc = .bCmp ∨ (s.forks g).pc = .bGet) ∧ (s.forks g).inc = j + 1
   cmp_inv : ∀ f, f < c.n → ((s.forks f).pc = .bCmp ∨ (s.forks f).pc = .bGet) → s.popped < (s.forks f).inc
   get_inv : ∀ f, f < c.n → (s.forks f).pc = .bGet → ∀ g, g < c.n → (s.forks f).inc ≤ (s.forks g).inc
+  tmp_ok : ∀ f, f < c.n → (s.forks f).pc = .bIncW → (s.forks f).tmp = s.cnt (s.forks f).inc
 
 theorem countF_false (n : Nat) : countF n (fun _ => false) = 0 := by
   induction n with
@@ -71,6 +72,7 @@ theorem inv2_init (c : Cfg) (hn : 0 < c.n) : Inv2 c init := by
     have := h 0 hn; simp [init, fork0] at this
   · intro f _ h; simp [init, fork0] at h
   · intro f _ h; simp [init, fork0] at h
+  · intro f _ h; simp [init, fork0] at h
 
 /-- a step that touches neither the counts, nor `popped`, nor who is comparing / about to pop -/
 structure Frame (s s' : State) : Prop where
@@ -81,10 +83,11 @@ structure Frame (s s' : State) : Prop where
   popped_eq : s'.popped = s.popped
 
 theorem inv2_frame (c : Cfg) (s s' : State) (hfr : Frame s s') (h : Inv2 c s)
-    (hm : ∀ f g j, f < c.n → g < c.n → holdsBox (s'.forks f) j = true → holdsBox (s'.forks g) j = true → f = g) :
+    (hm : ∀ f g j, f < c.n → g < c.n → holdsBox (s'.forks f) j = true → holdsBox (s'.forks g) j = true → f = g)
+    (ht : ∀ f, f < c.n → (s'.forks f).pc = .bIncW → (s'.forks f).tmp = s'.cnt (s'.forks f).inc) :
     Inv2 c s' := by
   obtain ⟨e1, e2, e3, e4, e5⟩ := hfr
-  obtain ⟨h1, h2, _, h4, h5, h6⟩ := h
+  obtain ⟨h1, h2, _, h4, h5, h6, _⟩ := h
   constructor
   · intro j; simp only [e4, e1]; exact h1 j
   · intro f hf; simp only [e5, e1]; exact h2 f hf
@@ -92,6 +95,16 @@ theorem inv2_frame (c : Cfg) (s s' : State) (hfr : Frame s s') (h : Inv2 c s)
   · intro j hj; simp only [e5, e1, e2, e3] at hj ⊢; exact h4 j hj
   · intro f hf hp; simp only [e5, e1, e2, e3] at hp ⊢; exact h5 f hf hp
   · intro f hf hp; simp only [e1, e3] at hp ⊢; exact h6 f hf hp
+  · exact ht
+
+/-- the pending increments are untouched by a step that keeps counts, `inc` and who is mid-increment -/
+theorem tmp_of_frame (c : Cfg) (s s' : State) (h : Inv2 c s) (e1 : ∀ g, (s'.forks g).inc = (s.forks g).inc)
+    (e4 : s'.cnt = s.cnt)
+    (hw : ∀ g, (s'.forks g).pc = .bIncW → (s.forks g).pc = .bIncW ∧ (s'.forks g).tmp = (s.forks g).tmp) :
+    ∀ f, f < c.n → (s'.forks f).pc = .bIncW → (s'.forks f).tmp = s'.cnt (s'.forks f).inc := by
+  intro f hf hp
+  obtain ⟨h1, h2⟩ := hw f hp
+  rw [h2, e1, e4]; exact h.tmp_ok f hf h1
 
 theorem mutex_of_hold_eq (c : Cfg) (s s' : State) (h : Inv2 c s)
     (he : ∀ g j, holdsBox (s'.forks g) j = holdsBox (s.forks g) j) :
@@ -101,7 +114,7 @@ theorem mutex_of_hold_eq (c : Cfg) (s s' : State) (h : Inv2 c s)
   exact h.mutex f g j hf hg h1 h2
 
 theorem holdsBox_iff (fk : Fork) (j : Nat) : holdsBox fk j = true ↔
-    fk.cur = some j ∧ (fk.pc = .bInc ∨ fk.pc = .bCmp ∨ fk.pc = .bGet ∨ fk.pc = .bRel) := by
+    fk.cur = some j ∧ (fk.pc = .bInc ∨ fk.pc = .bIncW ∨ fk.pc = .bCmp ∨ fk.pc = .bGet ∨ fk.pc = .bRel) := by
   simp [holdsBox, or_assoc]
 
 theorem boxFree_spec (c : Cfg) (s : State) (f j g : Nat) (h : boxFree c s f j = true) (hg : g < c.n) (hgf : g ≠ f) :
@@ -114,7 +127,7 @@ theorem boxFree_spec (c : Cfg) (s : State) (f j g : Nat) (h : boxFree c s f j = 
 set_option hygiene false in
 macro "tee_frame" : tactic => `(tactic| (
     rename_i hp
-    refine inv2_frame c s _ ⟨?_, ?_, ?_, ?_, ?_⟩ h2 (mutex_of_hold_eq c s _ h2 ?_)
+    refine inv2_frame c s _ ⟨?_, ?_, ?_, ?_, ?_⟩ h2 (mutex_of_hold_eq c s _ h2 ?_) (tmp_of_frame c s _ h2 ?_ ?_ ?_)
     · intro g; by_cases hgf : g = f
       · subst hgf; simp
       · simp [setFork_ne _ _ _ _ hgf]
@@ -129,6 +142,13 @@ macro "tee_frame" : tactic => `(tactic| (
     · intro g j; by_cases hgf : g = f
       · subst hgf; rw [Bool.eq_iff_iff]; simp only [holdsBox_iff, setFork_same, hp]
         (repeat' split) <;> simp
+      · simp [setFork_ne _ _ _ _ hgf]
+    · intro g; by_cases hgf : g = f
+      · subst hgf; simp
+      · simp [setFork_ne _ _ _ _ hgf]
+    · rfl
+    · intro g; by_cases hgf : g = f
+      · subst hgf; simp [hp]; try (repeat' split) <;> simp
       · simp [setFork_ne _ _ _ _ hgf]))
 
 theorem inv2_step (c : Cfg) (s : State) (a : Act) (s' : State) (hi : Inv c s) (h2 : Inv2 c s)
@@ -137,7 +157,7 @@ theorem inv2_step (c : Cfg) (s : State) (a : Act) (s' : State) (hi : Inv c s) (h
   have hf := hs.lt
   cases hs
   case bacq j _ hc hb hp =>
-    refine inv2_frame c s _ ⟨?_, ?_, ?_, rfl, rfl⟩ h2 ?_
+    refine inv2_frame c s _ ⟨?_, ?_, ?_, rfl, rfl⟩ h2 ?_ ?_
     · intro g; by_cases hgf : g = f
       · subst hgf; simp
       · simp [setFork_ne _ _ _ _ hgf]
@@ -164,8 +184,12 @@ theorem inv2_step (c : Cfg) (s : State) (a : Act) (s' : State) (hi : Inv c s) (h
         simp [this] at h1
       · rw [setFork_ne _ _ _ _ e1] at h1; rw [setFork_ne _ _ _ _ e2] at h2'
         exact h2.mutex f1 f2 j' hf1 hf2 h1 h2'
+    · intro g hg hpg
+      by_cases hgf : g = f
+      · subst hgf; simp at hpg
+      · rw [setFork_ne _ _ _ _ hgf] at hpg ⊢; exact h2.tmp_ok g hg hpg
   case brel _ hp =>
-    refine inv2_frame c s _ ⟨?_, ?_, ?_, rfl, rfl⟩ h2 ?_
+    refine inv2_frame c s _ ⟨?_, ?_, ?_, rfl, rfl⟩ h2 ?_ ?_
     · intro g; by_cases hgf : g = f
       · subst hgf; simp
       · simp [setFork_ne _ _ _ _ hgf]
@@ -180,12 +204,18 @@ theorem inv2_step (c : Cfg) (s : State) (a : Act) (s' : State) (hi : Inv c s) (h
       have e2 : f2 ≠ f := by intro e; subst e; simp [holdsBox] at h2'
       rw [setFork_ne _ _ _ _ e1] at h1; rw [setFork_ne _ _ _ _ e2] at h2'
       exact h2.mutex f1 f2 j' hf1 hf2 h1 h2'
+    · intro g hg hpg
+      by_cases hgf : g = f
+      · subst hgf; simp at hpg
+      · rw [setFork_ne _ _ _ _ hgf] at hpg ⊢; exact h2.tmp_ok g hg hpg
   case inc j _ hc hp =>
     have hab := (hi.forks f hf).atBox (by simp [hp, Pc.atBox])
     have hj : (s.forks f).inc = j := by
       have := hab.1; rw [hc] at this; exact (Option.some.inj this).symm
     have h2' := h2
-    obtain ⟨h1, h3, _, h4, h5, h6⟩ := h2
+    have htmp : (s.forks f).tmp = s.cnt j := by rw [h2.tmp_ok f hf hp, hj]
+    rw [htmp]
+    obtain ⟨h1, h3, _, h4, h5, h6, h7⟩ := h2
     have hcnt : s.cnt j + 1 = countF c.n (fun g => decide (j < ((setFork s f { s.forks f with
           pc := .bCmp, inc := (s.forks f).inc + 1 }).forks g).inc)) := by
       rw [h1 j]
@@ -240,12 +270,25 @@ theorem inv2_step (c : Cfg) (s : State) (a : Act) (s' : State) (hi : Inv c s) (h
       by_cases hgf : g = f
       · subst hgf; simp; omega
       · simpa [setFork_ne _ _ _ _ hgf] using this
+    · intro g hg hpg
+      by_cases hgf : g = f
+      · subst hgf; simp at hpg
+      · rw [setFork_ne _ _ _ _ hgf] at hpg ⊢
+        have hgab := (hi.forks g hg).atBox (by simp [hpg, Pc.atBox])
+        have hne : (s.forks g).inc ≠ j := by
+          intro e
+          apply hgf
+          refine h2'.mutex g f j hg hf ?_ ?_
+          · rw [holdsBox_iff]; exact ⟨by rw [hgab.1, e], by simp [hpg]⟩
+          · rw [holdsBox_iff]; exact ⟨hc, by simp [hp]⟩
+        simp only [hne, if_false]
+        exact h7 g hg hpg
   case cmp j _ hc hp =>
     have hpi := (hi.forks f hf).postInc (by simp [hp, Pc.postInc])
     have hj : (s.forks f).inc = j + 1 := by
       have := hpi.1; rw [hc] at this; have := Option.some.inj this; omega
     have h2' := h2
-    obtain ⟨h1, h3, _, h4, h5, h6⟩ := h2
+    obtain ⟨h1, h3, _, h4, h5, h6, h7⟩ := h2
     have hinc : ∀ g, ((setFork s f { s.forks f with pc := if s.cnt j = c.n then .bGet else .bRel }).forks g).inc
         = (s.forks g).inc := by
       intro g; by_cases hgf : g = f
@@ -289,10 +332,14 @@ theorem inv2_step (c : Cfg) (s : State) (a : Act) (s' : State) (hi : Inv c s) (h
         have := hfulliff.mp hn g hg
         omega
       · simp only [setFork_ne _ _ _ _ hhf] at hph; exact h6 h hh hph g hg
+    · intro g hg hpg
+      by_cases hgf : g = f
+      · subst hgf; simp at hpg; split at hpg <;> simp at hpg
+      · rw [setFork_ne _ _ _ _ hgf] at hpg ⊢; exact h7 g hg hpg
   case get _ hl hp =>
     have h2' := h2
     have hmut := h2.mutex
-    obtain ⟨h1, h3, _, h4, h5, h6⟩ := h2
+    obtain ⟨h1, h3, _, h4, h5, h6, h7⟩ := h2
     have q1 := h6 f hf hp
     have q2 := h5 f hf (Or.inr hp)
     have hown : s.popped + 1 = (s.forks f).inc := by
@@ -345,6 +392,31 @@ theorem inv2_step (c : Cfg) (s : State) (a : Act) (s' : State) (hi : Inv c s) (h
       rw [hpc h hhf] at hph
       simp only [hinc]
       exact h6 h hh hph g hg
+    · intro g hg hpg
+      by_cases hgf : g = f
+      · subst hgf; simp at hpg
+      · rw [setFork_ne _ _ _ _ hgf] at hpg ⊢; exact h7 g hg hpg
+  case incRead j _ hc hp =>
+    have hab := (hi.forks f hf).atBox (by simp [hp, Pc.atBox])
+    have hj : (s.forks f).inc = j := by
+      have := hab.1; rw [hc] at this; exact (Option.some.inj this).symm
+    refine inv2_frame c s _ ⟨?_, ?_, ?_, rfl, rfl⟩ h2 (mutex_of_hold_eq c s _ h2 ?_) ?_
+    · intro g; by_cases hgf : g = f
+      · subst hgf; simp
+      · simp [setFork_ne _ _ _ _ hgf]
+    · intro g; by_cases hgf : g = f
+      · subst hgf; simp [hp]
+      · simp [setFork_ne _ _ _ _ hgf]
+    · intro g; by_cases hgf : g = f
+      · subst hgf; simp [hp]
+      · simp [setFork_ne _ _ _ _ hgf]
+    · intro g j'; by_cases hgf : g = f
+      · subst hgf; rw [Bool.eq_iff_iff]; simp [holdsBox_iff, hp]
+      · simp [setFork_ne _ _ _ _ hgf]
+    · intro g hg hpg
+      by_cases hgf : g = f
+      · subst hgf; simp [hj]
+      · rw [setFork_ne _ _ _ _ hgf] at hpg ⊢; exact h2.tmp_ok g hg hpg
   all_goals tee_frame
 
 theorem inv12_reachable (c : Cfg) (hn : 0 < c.n) {s : State} (hr : Reachable c s) : Inv c s ∧ Inv2 c s :=
